@@ -896,11 +896,19 @@ Fixpoint simple (e : expr) : bool :=
   | ENot _ | EThen _ _ => false
   | EAnd a b | EOr a b => simple a && simple b
   end.
-(* can e end at more than one payload position (conservative: an AND outside NOT) *)
+(* bound on the number of payload positions a reading of a (THEN-free) group ends at *)
+Fixpoint data_ends (e : expr) : nat :=
+  match e with
+  | EAtom (AData _ _) => 1
+  | EAtom _ | ESkip | ENot _ => 0
+  | EAnd a b | EThen a b => data_ends a + data_ends b
+  | EOr a b => Nat.max (data_ends a) (data_ends b)
+  end.
+(* can e end at more than one payload position: an AND (outside NOT) of two sides with payload filters *)
 Fixpoint multi_end (e : expr) : bool :=
   match e with
   | EAtom _ | ESkip | ENot _ => false
-  | EAnd _ _ => true
+  | EAnd a b => Nat.leb 2 (data_ends a + data_ends b)
   | EOr a b | EThen a b => multi_end a || multi_end b
   end.
 Fixpoint or_only (e : expr) : bool :=
